@@ -26,7 +26,7 @@ META = {
         '(D4) Remove is written x: below 3.0 and -: from 3.0, both read as Remove.  (D5) only numbers, quantities and '
         'coordinates use %f (documented six decimals); everything else is exact.  (D6) assembly: every meta item but '
         'ver, every column with its remaining keys, every row key reach the grid; every column of every row is '
-        'emitted.  (D7) date-time payloads: the reader converts the written instant into the named zone with astimezone (never replace/localize on the aware value), the writer emits isoformat() of the value itself plus the zone name.  Not decided: numerical closeness; equality of rebuilt objects; json.dumps/loads (trusted).'),
+        'emitted.  (D7) date-time payloads: the reader converts the written instant into the named zone with astimezone (never replace/localize on the aware value), the writer emits isoformat() of the value itself plus the zone name.  Also: the h: time fields are converted with int() on digit text (no float leg, fraction cut/padded as text); the reader consumes private copies only (freshness, shared with C05.D3); SortableDict.items() pairs keys with their own values (shared with C16.D5).  Not decided: numerical closeness; equality of rebuilt objects; json.dumps/loads (trusted).'),
     'rule_text': 'obligations = ladder rows, kinds x (first-accepting entry, inclusion, capture markers) x 2 versions, '
                  'Remove rule, precision per kind, assembly facts',
     'trusted_base': ['re semantics of `.match`, `^`, `$`+MULTILINE, `.` without DOTALL; json.dumps/json.loads round-trip '
